@@ -87,7 +87,7 @@ type conf struct {
 }
 
 func main() {
-	run := lib.Start("C19", "the real binary run with generated secrets (16-20 characters, each of 27 special characters in turn incl. : @ / ? # % & + = space quotes backslash $ backtick) in --basic-auth, --api-basic-auth, --proxy userinfo, several --credentials entries and inline data: key material (--tls-key-file, --mitm-cakey-file, --cacert-file), supplied as flags / FORWARDER_* environment / YAML / JSON config file, at log levels error, info, debug x formats text, json x stdout or --log-file x --log-http none, short-url, url, errors (in a third of the configurations as 'proxy:<mode>,api:headers|body', each module keeping its own mode); traffic: authenticated request via the upstream proxy, request with site credentials, an Upgrade answered 101 with site credentials, CONNECT + MITM request, 407, 403, 502 error responses, /configz; everything printed, logged, served or returned is scanned for each secret in raw, URL-escaped, quoted and base64 (std, url, 3 alignments) forms and for 24-character windows of key material; non-secret companions must be visible; distinct = (channel, level, format, log target, log-http mode, special character) signatures")
+	run := lib.Start("C19", "the real binary run with generated secrets (16-20 characters, each of 27 special characters in turn incl. : @ / ? # % & + = space quotes backslash $ backtick) in --basic-auth, --api-basic-auth, --proxy userinfo, several --credentials entries and inline data: key material (--tls-key-file, --mitm-cakey-file, --cacert-file), supplied as flags / FORWARDER_* environment / YAML / JSON config file, at log levels error, info, debug x formats text, json x stdout or --log-file x --log-http none, short-url, url, errors (in a third of the configurations as 'proxy:<mode>,api:headers|body', each module keeping its own mode); traffic: authenticated request via the upstream proxy, request with site credentials, an Upgrade answered 101 with site credentials, CONNECT + MITM request, 407, 403, 502 error responses, CONNECTs that the upstream proxy refuses, drops without an answer or answers with garbage, /configz; everything printed, logged, served or returned is scanned for each secret in raw, URL-escaped, quoted and base64 (std, url, 3 alignments) forms and for 24-character windows of key material; non-secret companions must be visible; distinct = (channel, level, format, log target, log-http mode, special character) signatures")
 	root := run.RNG()
 	n := run.N(36, 1300)
 	var wg sync.WaitGroup
